@@ -166,8 +166,37 @@ type failItem struct {
 	op   string // key used for counting
 	coq  string // Coq nlop term
 	n    int
-	kind string // FErr | FEintr | FNotFound
+	kind string // FErr | FEintr | FNotFound | FEintrP (Coq text built by partialKind)
 	sub  int    // for connection failures: which of the three calls of newHandle fails
+	// FEintrP: the whole-table dump yields the routes with these keys, then somebody else changes the kernel, then EINTR
+	partial bool
+	ks      [][2]int
+	muts    []mut
+	wasHit  bool
+}
+
+// an out-of-band change of one kernel route: r == nil deletes it
+type mut struct {
+	table, cid, prio int
+	r                *kroute
+}
+
+func partialKind(ks [][2]int, muts []mut) (string, string) {
+	var a, b, h []string
+	for _, k := range ks {
+		a = append(a, fmt.Sprintf("rk %d %d", k[0], k[1]))
+	}
+	for _, m := range muts {
+		if m.r == nil {
+			b = append(b, fmt.Sprintf("(kk %d %d %d, None)", m.table, m.cid, m.prio))
+			h = append(h, fmt.Sprintf("del t%d %s/%d", m.table, cidrStr(m.cid), m.prio))
+		} else {
+			b = append(b, fmt.Sprintf("(kk %d %d %d, Some %s)", m.table, m.cid, m.prio, m.r.coq()))
+			h = append(h, fmt.Sprintf("set t%d %s/%d proto=%d if=%d", m.table, cidrStr(m.cid), m.prio, m.r.proto, m.r.ifx))
+		}
+	}
+	return "(FEintrP [" + strings.Join(a, "; ") + "] [" + strings.Join(b, "; ") + "])",
+		fmt.Sprintf("partial-dump%v-then%v-EINTR", ks, h)
 }
 
 type drv struct {
@@ -178,15 +207,30 @@ type drv struct {
 }
 
 func (d *drv) check(op string) (string, int, bool) {
+	it := d.checkItem(op)
+	if it == nil {
+		return "", 0, false
+	}
+	return it.kind, it.sub, true
+}
+
+func (d *drv) checkItem(op string) *failItem {
 	n := d.count[op]
 	d.count[op] = n + 1
-	for _, f := range d.plan {
+	for i := range d.plan {
+		f := &d.plan[i]
 		if f.op == op && f.n == n {
 			d.hit++
-			return f.kind, f.sub, true
+			f.wasHit = true
+			return f
 		}
 	}
-	return "", 0, false
+	return nil
+}
+
+func nlRoute(table, cid, prio int, k kroute) netlink.Route {
+	return netlink.Route{Family: netlink.FAMILY_V4, Table: table, Dst: mustCIDR(cidrStr(cid)), Priority: prio, Type: k.typ,
+		Scope: netlink.Scope(k.scope), Protocol: netlink.RouteProtocol(k.proto), LinkIndex: k.ifx, Gw: addr(k.gw), Src: addr(k.src), MTU: k.mtu}
 }
 
 func (d *drv) newHandle() (netlinkshim.Interface, error) {
@@ -235,8 +279,32 @@ func (s *shim) RouteListFilteredIter(family int, filter *netlink.Route, mask uin
 	if mask&netlink.RT_FILTER_OIF != 0 {
 		op = fmt.Sprintf("rlif:%d", filter.LinkIndex)
 	}
-	if kind, _, ok := s.d.check(op); ok {
-		if kind == "FEintr" {
+	if it := s.d.checkItem(op); it != nil {
+		if it.partial {
+			// the dump delivers some routes, then the table is changed by somebody else and the dump is interrupted
+			var all []netlink.Route
+			if err := s.Interface.RouteListFilteredIter(family, filter, mask, func(r netlink.Route) bool { all = append(all, r); return true }); err != nil {
+				return err
+			}
+			sort.Slice(all, func(i, j int) bool { return rkeyOf(&all[i]) < rkeyOf(&all[j]) })
+			for _, r := range all {
+				for _, k := range it.ks {
+					if rkeyOf(&r) == fmt.Sprintf("%d/%d", k[0], k[1]) {
+						f(r)
+					}
+				}
+			}
+			for _, m := range it.muts {
+				if m.r == nil {
+					s.d.dp.RemoveMockRoute(&netlink.Route{Table: m.table, Dst: mustCIDR(cidrStr(m.cid)), Priority: m.prio})
+				} else {
+					nl := nlRoute(m.table, m.cid, m.prio, *m.r)
+					s.d.dp.AddMockRoute(&nl)
+				}
+			}
+			return unix.EINTR
+		}
+		if it.kind == "FEintr" {
 			// dump interrupted before anything was delivered
 			return unix.EINTR
 		}
@@ -608,10 +676,59 @@ func (h *hist) linkChurn() {
 	}
 }
 
+// tableKeys lists the keys of the routes currently in Felix's table, sorted
+func (h *hist) tableKeys() [][2]int {
+	var ks [][2]int
+	for _, r := range h.dp.RouteKeyToRoute {
+		if r.Table == h.cfg.table {
+			ks = append(ks, [2]int{cidrID[r.Dst.String()], r.Priority})
+		}
+	}
+	sort.Slice(ks, func(i, j int) bool { return ks[i][0] < ks[j][0] || (ks[i][0] == ks[j][0] && ks[i][1] < ks[j][1]) })
+	return ks
+}
+
+// partialItem: the n-th whole-table dump of the Apply yields some routes, one of which (usually) then vanishes or is
+// replaced by somebody else's route before the dump is retried
+func (h *hist) partialItem(n int, must [][2]int) failItem {
+	r := h.r
+	all := h.tableKeys()
+	ks := append([][2]int{}, must...)
+	for _, k := range all {
+		if r.chance(50) && !(len(must) > 0 && k == must[0]) {
+			ks = append(ks, k)
+		}
+	}
+	var muts []mut
+	for _, k := range ks {
+		if len(muts) < 2 && (len(must) > 0 && k == must[0] || r.chance(45)) {
+			if r.chance(75) {
+				muts = append(muts, mut{h.cfg.table, k[0], k[1], nil})
+			} else {
+				var present []string
+				for _, n := range ifNames {
+					if _, ok := h.links[n]; ok {
+						present = append(present, n)
+					}
+				}
+				if len(present) > 0 {
+					kr := kroute{typ: unix.RTN_UNICAST, scope: int(netlink.SCOPE_LINK), proto: pick(r, []int{2, 4, 12}), ifx: h.links[pick(r, present)].idx}
+					muts = append(muts, mut{h.cfg.table, k[0], k[1], &kr})
+				}
+			}
+		}
+	}
+	kind, _ := partialKind(ks, muts)
+	return failItem{op: "rlall", coq: "NRouteListAll", n: n, kind: kind, partial: true, ks: ks, muts: muts}
+}
+
 func (h *hist) genPlan() []failItem {
 	r := h.r
 	if r.chance(55) {
 		return nil
+	}
+	if r.chance(12) {
+		return []failItem{h.partialItem(0, nil)}
 	}
 	if r.chance(12) && !h.lastConnFail {
 		// connection failures only on their own (and never in two consecutive Applies: handlemgr panics
@@ -718,6 +835,16 @@ func (h *hist) apply(plan []failItem) {
 	h.d.count = map[string]int{}
 	h.d.hit = 0
 	err := h.rt.Apply()
+	plan = nil
+	for _, f := range h.d.plan {
+		if f.partial && !f.wasHit {
+			continue // no whole-table dump happened: nothing was changed behind Felix's back
+		}
+		if f.partial {
+			h.tags["partial-dump-then-change"] = true
+		}
+		plan = append(plan, f)
+	}
 	h.d.plan = nil
 	if h.dp.FailuresToSimulate != 0 {
 		// a flag armed for a call that then did not happen would leak into a later call
@@ -727,7 +854,12 @@ func (h *hist) apply(plan []failItem) {
 	var ps, hs []string
 	for _, f := range plan {
 		ps = append(ps, fmt.Sprintf("pl %s %d %s", f.coq, f.n, f.kind))
-		hs = append(hs, fmt.Sprintf("%s#%d:%s", f.op, f.n, f.kind))
+		if f.partial {
+			_, hk := partialKind(f.ks, f.muts)
+			hs = append(hs, fmt.Sprintf("%s#%d:%s", f.op, f.n, hk))
+		} else {
+			hs = append(hs, fmt.Sprintf("%s#%d:%s", f.op, f.n, f.kind))
+		}
 	}
 	kern, human := h.dumpKernel()
 	h.applies++
@@ -871,6 +1003,21 @@ func probe() {
 
 func dp(h *hist) map[string]netlink.Route { return h.dp.RouteKeyToRoute }
 
+// directed opening: a programmed route is delivered by the whole-table dump of a full resync, vanishes from the kernel
+// before the (EINTR-)interrupted dump is retried, and must be put back by that same Apply.
+func (h *hist) skeletonVanishMidDump() {
+	r := h.r
+	h.tags["skeleton:vanish-mid-dump"] = true
+	name := pick(r, ifNames)
+	h.ensureUp(name)
+	cid, prio := h.pickKey()
+	h.update(pick(r, classes), name, cid, prio)
+	h.apply(nil)
+	h.rt.QueueResync()
+	h.emit("OQueueResync", "QueueResync()")
+	h.apply([]failItem{h.partialItem(0, [][2]int{{cid, prio}})})
+}
+
 func runHistory(r *rng, cfg config, nops int) line {
 	return newHist(r, cfg).run(nops)
 }
@@ -894,6 +1041,8 @@ func (h *hist) run(nops int) line {
 		h.skeletonFlapListFailure()
 	case 1:
 		h.skeletonMoveThenFail()
+	case 2:
+		h.skeletonVanishMidDump()
 	}
 	for i := 0; i < nops; i++ {
 		switch k := r.intn(100); {
